@@ -429,6 +429,7 @@ func (e rfEngine) Exec(ci interface{}, st *Stats) (*Violation, interface{}, bool
 		ref := doParse(string(prefix))
 		got := doParse(newReader(prefix, style, -1, c.Seed+uint64(n)))
 		rc := mk("cut", n, style, "parse")
+		ev("cut", n, got.errStr, got.hash, got.panicked)
 		if ref.panicked != "" {
 			return fail("parse_panic", "parse-panic", rc, "parser panicked on the %d-byte prefix: %s", n, ref.panicked)
 		}
@@ -494,6 +495,7 @@ func (e rfEngine) Exec(ci interface{}, st *Stats) (*Violation, interface{}, bool
 		ref := doParse(string(prefix))
 		rc := mk("cut", n, style, entry)
 		got := doRun(entry, newReader(prefix, style, -1, c.Seed+uint64(n)*3))
+		ev("runcut", n, entry, got.val, got.err, got.panicked, len(got.trace), got.state)
 		if got.panicked != "" {
 			if ref.errStr != "" {
 				return fail("run_panic_on_rejected_source", "", rc, "%s panicked on a rejected %d-byte prefix: %s", entry, n, got.panicked)
